@@ -194,6 +194,9 @@ def np_array(interp, name, args, kw, st, node):
     tag = _dtype_tag(kw.get("dtype") if "dtype" in kw else (args[1] if len(args) > 1 and name == "numpy.array" else None))
     if not isinstance(tag, str):
         tag = None
+    if tag == "float32":
+        interp.event("shape-conflict", node, st, what="precision-loss: conversion to reduced precision", a=name, b="float32")
+        return fresh_arr(T("cast", x.term, tag), shape(x), x.labels, tag)
     sh = shape(x)
     interp.event("copy", node, st, source=x)
     if x.kind in ("arr", "int", "float", "bool"):
@@ -229,6 +232,11 @@ def np_squeeze(interp, name, args, kw, st, node):
 @reg("numpy.asarray", "numpy.asarray_chkfinite", "numpy.asanyarray", "numpy.ascontiguousarray", "numpy.real", "numpy.atleast_1d", "sklearn.utils.validation.as_float_array", "sklearn.utils.as_float_array", "numpy.asfortranarray")
 def np_asarray(interp, name, args, kw, st, node):
     x = arrv(args[0])
+    dtv = kw.get("dtype") if "dtype" in kw else (args[1] if len(args) > 1 and name in ("numpy.asarray", "numpy.asanyarray", "numpy.ascontiguousarray", "numpy.asfortranarray") else None)
+    tg = _dtype_tag(dtv) if dtv is not None else None
+    if tg == "float32":
+        interp.event("shape-conflict", node, st, what="precision-loss: conversion to reduced precision", a=name, b="float32")
+        return fresh_arr(T("cast", x.term, tg), shape(x), x.labels, tg)
     if x.kind == "arr":
         return x
     if x.kind == "unk":
@@ -827,6 +835,19 @@ def np_flatnonzero(interp, name, args, kw, st, node):
 def np_unique(interp, name, args, kw, st, node):
     base = name.rsplit(".", 1)[1]
     ext = Dim.unknown(base)
+    if base == "unique":
+        flags = [k for k in ("return_index", "return_inverse", "return_counts") if kw.get(k) is not None and kw[k].has_const and kw[k].const]
+        if flags:
+            x = arrv(args[0])
+            sx = shape(x)
+            axis_kw = kw.get("axis")
+            rows = axis_kw is not None and axis_kw.has_const and axis_kw.const == 0 and sx is not None and len(sx) == 2
+            first = fresh_arr(T("unique", x.term, *([("axis", const(0))] if rows else [])), ((ext, sx[1]) if rows else (ext,)), x.labels, x.extra if isinstance(x.extra, str) else None)
+            outs = [first]
+            for k in flags:
+                n_ = (sx[0] if (k == "return_inverse" and sx is not None and sx) else ext)
+                outs.append(fresh_arr(T("unique_" + k[7:], x.term, *([("axis", const(0))] if rows else [])), (n_,), x.labels, "int"))
+            return interp.mk_tuple(outs)
     if base == "setdiff1d" and len(args) >= 2:
         d = _complement_extent(arrv(args[0]), args[1])
         if d is not None:
@@ -1483,7 +1504,7 @@ def _validated(interp, x, copy, st, node, what):
 @reg("sklearn.utils.check_array", "sklearn.utils.validation.check_array")
 def sk_check_array(interp, name, args, kw, st, node):
     x = args[0] if args else kw.get("array")
-    interp.event("validate", node, st, fn="check_array", source=x)
+    interp.event("validate", node, st, fn="check_array", source=x, dtype=(repr(kw["dtype"].term) if kw.get("dtype") is not None else None))
     return _validated(interp, x, kw.get("copy"), st, node, "check_array")
 
 
@@ -1901,6 +1922,14 @@ def _array_method(x, name):
                 return x
             cur = x.extra if isinstance(x.extra, str) else None
             term = x.term
+            dtv_ = args[0] if args else kw.get("dtype")
+            if tag is None and dtv_ is not None and isinstance(dtv_.term, Term) and dtv_.term.op == "dtype":
+                # astype(A.dtype): harmless when A is itself computed in floating point; when A is (a selection of)
+                # raw caller data and the value is computed, an integer input truncates it
+                db_, xb_ = dtype_base(dtv_.term), dtype_base(x.term)
+                if isinstance(db_, Term) and db_.op == "sym" and xb_ != db_ and any(isinstance(o_, tuple) and o_ and o_[0] in ("in", "optin") for o_ in (dtv_.orig or ())):
+                    interp.event("shape-conflict", node, st, what="precision-loss: a computed value is cast to the dtype of the caller's raw array (an integer input truncates it)", a=repr(dtv_.term)[:60], b=repr(x.term)[:60])
+                    term = T("cast", x.term, dtv_.term)
             if tag == "float32":
                 interp.event("shape-conflict", node, st, what="precision-loss: cast to reduced precision", a="astype", b="float32")
                 term = T("cast", x.term, tag)
@@ -2179,7 +2208,7 @@ def self_ext_method(interp, recv, name, args, kw, st, node):
     labels = _L(*args, *kw.values())
     if name == "_validate_data":
         b = bind(["X", "y"], args, kw)
-        interp.event("validate", node, st, fn="_validate_data", source=b["X"])
+        interp.event("validate", node, st, fn="_validate_data", source=b["X"], dtype=(repr(kw["dtype"].term) if kw.get("dtype") is not None else None))
         X = _validated(interp, b["X"], kw.get("copy"), st, node, "_validate_data")
         reset = kw.get("reset")
         # sklearn's feature-count bookkeeping: reset=True (default) records n_features_in_, reset=False
